@@ -246,6 +246,9 @@ func (l *lexer) run() {
 				l.col += w
 				l.ignore()
 				l.inVerbatim = false
+				// Re-examine the input right after the block: another verbatim
+				// block (or any other construct) may start here.
+				continue
 			}
 		} else if strings.HasPrefix(l.input[l.pos:], "{% verbatim %}") { // tag
 			if l.pos > l.start {
@@ -256,6 +259,8 @@ func (l *lexer) run() {
 			l.pos += w
 			l.col += w
 			l.ignore()
+			// The body may be empty: check for the end marker before consuming input.
+			continue
 		}
 
 		if !l.inVerbatim {
